@@ -150,6 +150,7 @@ class Model:
             raise SystemExit(f"model driver not built: {DRIVER} (run make -C {VERIF} setup)")
         # the extracted list functions are not tail-recursive: give the
         # driver an unlimited system stack
+        self.small = None
         self.p = subprocess.Popen(
             ["bash", "-c", f"ulimit -s unlimited 2>/dev/null; exec '{DRIVER}'"],
             stdin=subprocess.PIPE, stdout=subprocess.PIPE, bufsize=0,
@@ -162,7 +163,14 @@ class Model:
         out = self.p.stdout.readline()
         if not out:
             raise RuntimeError("model driver died")
+        # remember the smallest case of this batch for the vm_compute cross-check
+        if len(line) < 40000 and (self.small is None or len(line) < len(self.small[0])):
+            self.small = (line.decode().strip(), out.decode().strip())
         return json.loads(out)
+
+    def take_small(self):
+        s, self.small = self.small, None
+        return s
 
     def close(self):
         try:
